@@ -81,9 +81,8 @@ def run(tier, seed, model_ok=True):
     from props import c02
     c02.dtor_runs(res, "quick", seed)
     # the blocking collectives return for every serialised size (1-byte steps around the helpers' internal boundaries)
-    if tier != "quick":
-        from props import c09
-        c09.run_size_sweep(res, "quick", seed, model_ok)
+    from props import c09
+    c09.run_size_sweep(res, "quick", seed, model_ok)
     unknown = [i for i, f in enumerate(res.oracle_failures) if not f["signature"].startswith("deadlock coll(")]
     if unknown:
         i = unknown[0]
@@ -92,6 +91,9 @@ def run(tier, seed, model_ok=True):
 
 
 def replay(data):
+    if (data.get("case") or {}).get("mode") == "sweep":
+        from props import c09
+        return c09.replay(data)
     if (data.get("case") or {}).get("harness") == "dtor":
         from props import c02
         return c02.replay(data)
